@@ -326,6 +326,12 @@ def main(argv):
             f.write("# solver: z3 said the negated goal is satisfiable under the path condition; model of the inputs:\n")
             f.write("# %s\n" % json.dumps(o.get("model"), default=str)[:3000])
             f.write(body)
+        if script and len(lines) >= 6:
+            # a change that breaks thousands of inputs is replayed on the first few only (each replay is a process)
+            reproduced = bool(o.get("native")) or "native" in o["name"]
+            script = None
+            with open(path, "a") as f:
+                f.write("\n# (not replayed: more than 6 violations in this run)\n")
         if script:
             # replay natively against the real code of the same working tree: exit 1 = failure reproduced
             try:
@@ -350,8 +356,10 @@ def main(argv):
         print(f"UNDECIDED unit={x.get('unit')} obligation={x.get('obligation', '-')} reason={str(x.get('reason'))[:300]}")
     for f in faults:
         print("CHECKER-FAULT " + (f if len(f) < 2500 else f[:300] + " ... " + f[-2200:]))
-    for line in lines:
+    for line in lines[:40]:
         print(line)
+    if len(lines) > 40:
+        print(f"({len(lines) - 40} more violations of property {prop} are listed in the evidence file)")
     if faults and exit_code == 0:
         exit_code = 3
 
